@@ -194,6 +194,10 @@ class Gen:
         if k == 18:
             params = self.pick(["", "p", "p, q=1", "*args", "p, *args, **kw"])
             self.features.add("lambda")
+            if params == "" and self.chance(3):
+                # a function made and called on the spot, without arguments (MAKE_FUNCTION directly before the call)
+                self.features.add("lambda-called-at-once")
+                return "(lambda: %s)()" % self.expr(d + 2)
             return "(lambda %s: %s)" % (params, self.expr(d + 2))
         if k == 19 and v >= (3, 6):
             self.features.add("fstring")
